@@ -57,8 +57,42 @@ pub struct Check {
     pub max_samples: usize,
 }
 
+static VERDICT_FD: std::sync::atomic::AtomicI32 = std::sync::atomic::AtomicI32::new(1);
+
+/// Writes one verdict line to the real stdout (even while fd 1 is muted).
+pub fn say(line: &str) {
+    let fd = VERDICT_FD.load(Ordering::SeqCst);
+    let mut b = line.as_bytes().to_vec();
+    b.push(b'\n');
+    let mut off = 0;
+    while off < b.len() {
+        let n = unsafe { libc::write(fd, b[off..].as_ptr() as *const libc::c_void, b.len() - off) };
+        if n <= 0 {
+            break;
+        }
+        off += n as usize;
+    }
+}
+
+/// liblinear (C++) prints its progress to stdout, which is where verdict lines go: point fd 1
+/// at /dev/null for the rest of the process and keep a private duplicate for verdicts.
+pub fn mute_stdout() {
+    if VERDICT_FD.load(Ordering::SeqCst) != 1 {
+        return; // already muted
+    }
+    unsafe {
+        let saved = libc::dup(1);
+        let null = libc::open(b"/dev/null\0".as_ptr() as *const libc::c_char, libc::O_WRONLY);
+        if saved >= 0 && null >= 0 {
+            libc::dup2(null, 1);
+            libc::close(null);
+            VERDICT_FD.store(saved, Ordering::SeqCst);
+        }
+    }
+}
+
 pub fn machinery_error(msg: &str) -> ! {
-    println!("MACHINERY-ERROR: {msg}");
+    say(&format!("MACHINERY-ERROR: {msg}"));
     eprintln!("MACHINERY-ERROR: {msg}");
     std::process::exit(2);
 }
@@ -185,6 +219,19 @@ impl Check {
         // simplest (shortest signature) first
         let mut order: Vec<(&String, &Violation)> = viols.iter().collect();
         order.sort_by_key(|(s, _)| (s.chars().count(), (*s).clone()));
+        // round-robin over violation kinds (first word), so every kind gets printed
+        {
+            let mut rank: BTreeMap<String, usize> = BTreeMap::new();
+            let mut keyed: Vec<(usize, usize, (&String, &Violation))> = vec![];
+            for (i, (s, v)) in order.iter().enumerate() {
+                let kind = s.split_whitespace().next().unwrap_or("").to_string();
+                let r = rank.entry(kind).or_insert(0);
+                keyed.push((*r, i, (*s, *v)));
+                *r += 1;
+            }
+            keyed.sort_by_key(|(r, i, _)| (*r, *i));
+            order = keyed.into_iter().map(|(_, _, x)| x).collect();
+        }
         for (sig, v) in order {
             if let Some(k) = known.iter().find(|k| k.matches(sig)) {
                 n_known += v.count;
@@ -252,9 +299,9 @@ impl Check {
             machinery_error(&format!("cannot write {path}: {e}"));
         }
         for l in &lines {
-            println!("{l}");
+            say(l);
         }
-        println!(
+        say(&format!(
             "{} {}: evaluations={} nontrivial={} violations={} known={} wall={:.1}s",
             self.id,
             self.tier.name(),
@@ -263,7 +310,7 @@ impl Check {
             n_unknown,
             n_known,
             wall
-        );
+        ));
         if evals == 0 || nontrivial < 2 {
             machinery_error("vacuous run: no evaluations / no non-trivial cases");
         }
